@@ -1051,6 +1051,10 @@ func checkUnguardedTypes(p *Prog, res *Result, inOwner map[*types.Var]bool) {
 			res.ok("C19-R4", construct, pos, "every object of this type is allocated locally and never escapes its goroutine (not stored, sent, returned or handed to a go statement)")
 			continue
 		}
+		if why, ok := p.forkJoinConfined(fi.owner, fv); ok {
+			res.ok("C19-R4", construct, pos, why)
+			continue
+		}
 		reason, listed := confinedFields[k]
 		if !listed {
 			// whole-type entries
